@@ -23,7 +23,35 @@ pub fn rank(mut rows: Vec<u128>) -> usize {
     r
 }
 
+/// Same for any number of columns: rows as little-endian words.
+pub fn rank_wide(mut rows: Vec<Vec<u64>>, ncols: usize) -> usize {
+    let mut r = 0;
+    let n = rows.len();
+    for bit in 0..ncols {
+        let (w, m) = (bit / 64, 1u64 << (bit % 64));
+        if let Some(p) = (r..n).find(|&i| rows[i][w] & m != 0) {
+            rows.swap(r, p);
+            let pr = rows[r].clone();
+            for (i, row) in rows.iter_mut().enumerate() {
+                if i != r && row[w] & m != 0 {
+                    for (x, y) in row.iter_mut().zip(pr.iter()) {
+                        *x ^= *y;
+                    }
+                }
+            }
+            r += 1;
+            if r == n {
+                break;
+            }
+        }
+    }
+    r
+}
+
 pub fn self_test() -> Result<(), String> {
+    if rank_wide(vec![vec![0b101, 1], vec![0b011, 0], vec![0b110, 1]], 65) != 2 {
+        return Err("f2 rank wide".into());
+    }
     if rank(vec![0b11, 0b11, 0b01]) != 2 {
         return Err("f2 rank 1".into());
     }
